@@ -5,6 +5,7 @@ mod c07;
 mod c11;
 mod c12;
 mod c13;
+mod c14;
 mod c16;
 mod core;
 mod auto;
@@ -24,6 +25,7 @@ fn main() {
         "c11" => c11::run(&args),
         "c12" => c12::run(&args),
         "c13" => c13::run(&args),
+        "c14" => c14::run(&args),
         "c16" => c16::run(&args),
         "rxprobe" => {
             // vp rxprobe <pattern> <escaped haystack>: what the regex engines say
